@@ -11,22 +11,20 @@ Import ListNotations.
 Inductive rc :=
 | RC_ini_base          (* </p> against @base: the '/' is dropped and the rest appended to the base *)
 | RC_concat            (* relative reference resolved by plain concatenation with the base *)
-| RC_dt_custom_prefix  (* datatype written with a prefix other than xsd/rdf/dt/geo: raises *)
-| RC_dt_hardwired      (* the four prefixes / namespaces are searched as text in the whole token *)
-| RC_lang_marker       (* '@' in the datatype IRI: typed rdf:langString *)
-| RC_typed_marker      (* quote ^^ inside the lexical form *)
+| RC_dt_custom_prefix  (* the document's prefixes are not consulted for datatypes (nor for the token rdf:type):
+                          a prefix other than xsd/rdf/dt/geo raises, those four are wired to fixed namespaces *)
 | RC_dir_unresolved    (* IRI of @prefix/@base never resolved against the base *)
 | RC_ws_in_literal     (* tab / repeated blank inside a lexical form (content altered; not a finding) *)
 | RC_long_number.      (* integer of more than 300 digits (float() overflow; not modelled) *)
 (** Repaired and therefore gone from this list (see known_findings.json, status fixed): the '#'
     of <#frag> dropped, "absolute" tested as startswith("http"), a non-http base applied twice,
-    pfx: replaced at every occurrence, and the three faults of the comment scan. *)
+    pfx: replaced at every occurrence, the three faults of the comment scan, and (repair C06-B of
+    decide_literal_type) the texts xsd: rdf: dt: geo: / '@' / quote-^^ searched in the whole token. *)
 
 Definition rc_eqb (a b : rc) : bool :=
   match a, b with
   | RC_ini_base, RC_ini_base | RC_concat, RC_concat
-  | RC_dt_custom_prefix, RC_dt_custom_prefix | RC_dt_hardwired, RC_dt_hardwired
-  | RC_lang_marker, RC_lang_marker | RC_typed_marker, RC_typed_marker
+  | RC_dt_custom_prefix, RC_dt_custom_prefix
   | RC_dir_unresolved, RC_dir_unresolved
   | RC_ws_in_literal, RC_ws_in_literal | RC_long_number, RC_long_number => true
   | _, _ => false
@@ -51,7 +49,7 @@ Definition rc_ref (e : env) (r : iri_ref) : list rc :=
     end
   | IPre p l =>
     when (str_eqb (render_ref r) (Str "rdf:type") &&
-          negb (match lookup p (e_prefixes e) with Some ns => str_eqb ns rdf_ns | None => true end)) RC_dt_hardwired
+          negb (match lookup p (e_prefixes e) with Some ns => str_eqb ns rdf_ns | None => true end)) RC_dt_custom_prefix
   end.
 
 (** the prefixes the literal typing knows, with the namespaces it wires to them *)
@@ -59,37 +57,24 @@ Definition wired : list (str * str) :=
   [(Str "xsd", xsd_ns); (Str "rdf", rdf_ns);
    (Str "dt", Str "http://dbpedia.org/datatype/"); (Str "geo", Str "http://www.opengis.net/ont/geosparql#")].
 
-(** first wired prefix whose text [pfx:] occurs anywhere in the token *)
-Fixpoint first_wired (l : list (str * str)) (tok : str) : option (str * str) :=
-  match l with
-  | [] => None
-  | (p, ns) :: l' => if contains (p ++ Str ":") tok then Some (p, ns) else first_wired l' tok
+(** a prefixed datatype is read right iff its prefix is wired and the document binds it as wired *)
+Definition wired_as_declared (e : env) (p : str) : bool :=
+  match lookup p wired, lookup p (e_prefixes e) with
+  | Some ns, Some ns' => str_eqb ns ns'
+  | _, _ => false
   end.
 
 Definition rc_lit (e : env) (lex : str) (sfx : lit_suffix) : list rc :=
-  let tok := render_obj (OLit lex sfx) in
-  when (contains (Str """^^") (Str """" ++ lex)) RC_typed_marker ++
   when (contains [ascii_of_nat 9] lex || contains (Str "  ") lex) RC_ws_in_literal ++
   match sfx with
   | LPlain | LLang _ => []
-  | LTyped r =>
-    when (contains (Str "@") (render_ref r)) RC_lang_marker ++
-    match r, first_wired wired tok with
-    | IPre p l, None => [RC_dt_custom_prefix]
-    | IPre p l, Some (q, ns) =>
-      when (negb (str_eqb p q && Z.eqb (find (q ++ Str ":") tok) (len lex + 4) &&
-                  match lookup p (e_prefixes e) with Some ns' => str_eqb ns ns' | None => false end))
-           RC_dt_hardwired
-    | _, Some _ => [RC_dt_hardwired]
-    | IAbs i, None => []
-    | IRel x, None =>
-      when (existsb (fun w => contains (snd w) tok) wired) RC_dt_hardwired ++
-      match e_base e with
-      | None => []
-      | Some b =>
-        when (match resolve b x with Some u => negb (str_eqb u (b ++ x)) | None => false end) RC_concat
-      end
+  | LTyped (IAbs _) => []
+  | LTyped (IRel x) =>
+    match e_base e with
+    | None => []
+    | Some b => when (match resolve b x with Some u => negb (str_eqb u (b ++ x)) | None => false end) RC_concat
     end
+  | LTyped (IPre p _) => when (negb (wired_as_declared e p)) RC_dt_custom_prefix
   end.
 
 Definition rc_subj (e : env) (s : subj) : list rc :=
